@@ -258,6 +258,11 @@ func SetContentType(w http.ResponseWriter, ct string) {
 	if ct == "application/xml" {
 		suffix = "+xml"
 	}
+	if i := strings.Index(h, ";"); i >= 0 {
+		// keep the parameters behind the suffixed media type
+		w.Header().Set("Content-Type", strings.TrimRight(h[:i], " \t")+suffix+h[i:])
+		return
+	}
 	w.Header().Set("Content-Type", h+suffix)
 }
 
